@@ -412,4 +412,70 @@ func genC02(g *Gen) {
 			held(ws, os, cnt-1, "held-index-random")
 		}
 	}
+
+	// (6) large bitmaps: positions beyond 2^12 (and 2^15 in the thorough tier), many checkpoints,
+	// long runs of skipped words.  (Added after the self-test: a checkpoint that is wrong only for
+	// bit positions >= 4096 survived the 1..70-word generators.)
+	sizes := []int{64, 65, 96, 129, 200, 257}
+	if g.Thorough {
+		sizes = append(sizes, 300, 400, 513, 600)
+	}
+	for _, n := range sizes {
+		for variant := 0; variant < 3; variant++ {
+			ws := make([]uint64, n)
+			switch variant {
+			case 0: // uniform
+				for i := range ws {
+					ws[i] = g.R.U64()
+				}
+			case 1: // sparse with long empty runs: 1 word in 8 carries 1..3 bits
+				for i := range ws {
+					if g.R.Intn(8) == 0 {
+						for q := g.R.Range(1, 3); q > 0; q-- {
+							ws[i] |= 1 << uint(g.R.Intn(64))
+						}
+					}
+				}
+				ws[n-1-g.R.Intn(3)] |= 1 << uint(g.R.Intn(64))
+			default: // dense head, empty tail
+				for i := 0; i < n; i++ {
+					if i < n-n/4 {
+						ws[i] = g.R.U64() | g.R.U64()
+					}
+				}
+			}
+			index(ws)
+			os := c02Ones(ws)
+			cnt := len(os)
+			if cnt == 0 {
+				continue
+			}
+			bucket := fmt.Sprintf("large-v%d-nw%03d", variant, n)
+			seen := map[int]bool{}
+			try := func(i int) {
+				if i >= 0 && i < cnt && !seen[i] {
+					seen[i] = true
+					sel(ws, os, i, bucket)
+				}
+			}
+			try(0)
+			try(cnt - 1)
+			// the 1-bits around bit positions 4096 and 32768 and around the last checkpoint
+			for j, p := range os {
+				if (p >= 4096 && j > 0 && os[j-1] < 4096) || (p >= 32768 && j > 0 && os[j-1] < 32768) {
+					try(j - 1)
+					try(j)
+					try(j | 31)
+				}
+			}
+			c := (cnt - 1) &^ 31
+			try(c - 1)
+			try(c)
+			try(c + 1)
+			for q := 0; q < 4; q++ {
+				try(g.R.Intn(cnt))
+			}
+			held(ws, os, g.R.Intn(cnt), "held-index-large")
+		}
+	}
 }
